@@ -4,5 +4,5 @@ CONSTANTS
   MAXSTEPS = 2
   MAXTICK = 0
   MAXLEN = 0
-  STRIDE = 16
+  STRIDE = 32
 CHECK_DEADLOCK FALSE
